@@ -23,7 +23,7 @@ from puresnmp.adt import (
     V3Flags,
 )
 from puresnmp.credentials import V3, Credentials
-from puresnmp.exc import SnmpError
+from puresnmp.exc import ErrorResponse, SnmpError
 from puresnmp.pdu import GetRequest, PDUContent, Report
 from puresnmp.plugins.security import SecurityModel
 from puresnmp.transport import MESSAGE_MAX_SIZE
@@ -537,8 +537,15 @@ class UserSecurityModel(
                 security_params, force=is_not_in_time_window_report(message)
             )
         message = decrypt_message(message, credentials)
+        if not isinstance(message.scoped_pdu.data, Report):
+            # The security level has to be checked before anything else is
+            # done with the PDU. It is decoded lazily and raises the
+            # exception of its error-status on first access (f.ex. the
+            # "NoSuchOID" which silently ends a walk). Reports may
+            # legitimately arrive with a lower level. They always end up as
+            # an error in "validate_usm_message".
+            validate_security_level(message, credentials)
         validate_usm_message(message)
-        validate_security_level(message, credentials)
         return message
 
     async def send_discovery_message(
@@ -658,7 +665,16 @@ def validate_usm_message(message: PlainMessage) -> None:
 
     :raises SnmpError: If an error was found
     """
-    pdu = message.scoped_pdu.data.value
+    try:
+        pdu = message.scoped_pdu.data.value
+    except ErrorResponse as exc:
+        if isinstance(message.scoped_pdu.data, Report):
+            # The error-status of a (possibly unauthenticated) report must
+            # not be mistaken for the answer to the request.
+            raise SnmpError(
+                f"Error response from remote device: Unexpected report ({exc})"
+            ) from exc
+        raise
     errors = {
         ObjectIdentifier(
             "1.3.6.1.6.3.15.1.1.1.0"
